@@ -5166,7 +5166,8 @@ def elemwise(op, *args, out=None, where=True, dtype=None, name=None, **kwargs):
     )  # Raises ValueError if dimensions mismatch
     expr_inds = tuple(range(out_ndim))[::-1]
 
-    if dtype is not None:
+    dtype_given = dtype is not None
+    if dtype_given:
         need_enforce_dtype = True
     else:
         # We follow NumPy's rules for dtype promotion, which special cases
@@ -5204,6 +5205,9 @@ def elemwise(op, *args, out=None, where=True, dtype=None, name=None, **kwargs):
         blockwise_kwargs["elemwise_where_function"] = op
         op = _elemwise_handle_where
         args.extend([where, out])
+        if isinstance(out, Array) and not dtype_given:
+            # each block is written into a copy of out's block and has its dtype
+            dtype = blockwise_kwargs["dtype"] = out.dtype
 
     if need_enforce_dtype:
         blockwise_kwargs["enforce_dtype"] = dtype
